@@ -52,11 +52,13 @@ Fixpoint frame_next2 (old_restart:bool) (fuel:nat) (r:rt) (c:context) : res (fre
           match br with
           | BrSeekEnd => Ok (F2Done, r2, upd_top c3 (fun f => set_pos f (S (length (f_code f)))))
           | BrSeekStart =>
-              let c4 := clear_values (upd_top c3 (fun f => set_pos f 0)) in
+              let c4 := clear_values (upd_top c3 (fun f => set_scope (set_pos f 0) "")) in
               (* repaired: nothing to execute before the behaviour runs again -> back to execute_do *)
               if andb (negb old_restart) (top_code_empty c4) then Ok (F2Restarted, r2, c4)
               else frame_next2 old_restart fuel' r2 c4
-          | BrExchange code' => frame_next2 old_restart fuel' r2 (upd_top c3 (fun f => set_pos (set_code f code') 0))
+          | BrExchange code' =>
+              let rename := fun f => match b' with BWhile _ WCond _ _ => set_scope f "" | _ => f end in
+              frame_next2 old_restart fuel' r2 (upd_top c3 (fun f => set_pos (set_code (rename f) code') 0))
           | BrOk | BrFail => Ok (res0, r2, c3) end)
       else Ok (res0, r, c1)
     | None => Ok (res0, r, c1) end
